@@ -185,7 +185,7 @@ static const char *op_name(int code)
     return code > 0 && code < OP__N ? n[code] : "?";
 }
 
-enum { CFG_PROP = 0, CFG_TYPE, CFG_POOL, CFG_FAULTS, CFG_PROVIDE, CFG_TWIN, CFG_ALLOCDEF, CFG_FAULTSWEEP };
+enum { CFG_PROP = 0, CFG_TYPE, CFG_POOL, CFG_FAULTS, CFG_PROVIDE, CFG_TWIN, CFG_ALLOCDEF, CFG_FAULTSWEEP, CFG_RELAY };
 
 enum { F_ORDER = 1, F_SAME_PAYLOAD = 2, F_IMMEDIATE = 4,
        F_COMPLETE = 8, /* documented never to drop: everything accepted comes out once the loop and the clock ran */
@@ -390,6 +390,16 @@ static struct sink {
     struct uchain held, blockers;
 } sinks[NSINK];
 
+/* "chains of them": in one run out of three a real pass-through pipe (upipe_idem)
+ * sits between the pipe under test and each sink. Flow definitions, buffers,
+ * requests and blockers then go through a real pipe's control and input
+ * functions; the sinks see the same things, so every oracle stays as it is. */
+static struct upipe *relay[NSINK];
+static struct upipe *out_of(int k)
+{
+    return relay[k] != NULL ? relay[k] : &sinks[k].upipe;
+}
+
 /* the pump the harness names as the source of its buffers (a timer that never
  * fires): pipes that hold input block it, and must let it go again */
 static struct upump *src_pump;
@@ -435,7 +445,7 @@ static int catch(struct uprobe *uprobe, struct upipe *upipe, int event, va_list 
         }
         return UBASE_ERR_NONE;
     }
-    if (upipe == NULL || upipe == &sinks[0].upipe || upipe == &sinks[1].upipe)
+    if (upipe == NULL || upipe == &sinks[0].upipe || upipe == &sinks[1].upipe || upipe == relay[0] || upipe == relay[1])
         return UBASE_ERR_UNHANDLED;
     if (ut == NULL && ut_alloc == NULL && allocating)
         ut_alloc = upipe;               /* ready is thrown from inside the allocator */
@@ -695,6 +705,17 @@ static void env_setup(void)
     }
     /* a watcher on a descriptor nobody writes to: never dispatched, does not
      * keep the loop alive, can be blocked */
+    memset(relay, 0, sizeof(relay));
+    if (((uint64_t)plan->cfg[CFG_RELAY] & 1) && !(types[type].flags & F_TYPED)) {
+        struct upipe_mgr *idem_mgr = upipe_idem_mgr_alloc();
+        for (int i = 0; i < NSINK; i++) {
+            relay[i] = upipe_void_alloc(idem_mgr, uprobe_use(chain));
+            SIM_PROBE("sweep_relay_pipe_in_front_of_sink");
+            if (relay[i] != NULL)
+                upipe_set_output(relay[i], &sinks[i].upipe);
+        }
+        upipe_mgr_release(idem_mgr);
+    }
     src_pump = ueventfd_init(&src_fd, false) ? ueventfd_upump_alloc(&src_fd, upump_mgr, src_pump_cb, NULL, NULL) : NULL;
     if (src_pump != NULL) {
         upump_set_status(src_pump, false);
@@ -718,6 +739,13 @@ static void env_teardown(void)
 {
     for (int i = 0; i < NSINK; i++)
         sink_let_go(&sinks[i]);
+    for (int i = 0; i < NSINK; i++)
+        if (relay[i] != NULL) {
+            /* (the application's reference; the pipe under test held its own) */
+            struct upipe *r = relay[i];
+            relay[i] = NULL;
+            upipe_release(r);
+        }
     if (src_pump != NULL) {
         /* (a blocker left by a dead pipe is called back from here) */
         upump_stop(src_pump);
@@ -1277,10 +1305,10 @@ static void do_op(const struct sim_op *op)
     case OP_SET_OUTPUT: {
         int w = (int)((uint64_t)op->a[0] % 3);
         struct upipe *out = w == 0 ? NULL : &sinks[w - 1].upipe;
-        if (out != NULL)
+        if (out != NULL && relay[w - 1] == NULL)
             sinks[w - 1].accepted = false;     /* has to negotiate again */
         complete_tainted = true;
-        if (ubase_check(upipe_set_output(ut, out)))
+        if (ubase_check(upipe_set_output(ut, w == 0 ? NULL : out_of(w - 1))))
             cur_out = out;
         else
             has_no_output = true;       /* (a sink, or an allocation failed) */
@@ -1388,6 +1416,8 @@ static void do_op(const struct sim_op *op)
         /* (not after a set_output that returned an error: commands that end with
          * the pipe's own check report the check's error although the output was
          * set - which one is current is then not known to the application) */
+        if (cur_out != NULL && out == out_of((int)(container_of(cur_out, struct sink, upipe) - sinks)))
+            out = cur_out;
         if (checking() && out != cur_out && out != NULL && cur_out != NULL && !has_no_output)
             sim_violation(V_GETTER, "%s: get_output does not report the output that was set", types[type].name);
         for (int w = 0; w < 3; w++) {
@@ -1668,13 +1698,15 @@ static bool run_once(void)
         sinks[0].accepted = false;
         cur_out = NULL;
         has_no_output = false;
-        if (ubase_check(upipe_set_output(ut, &sinks[0].upipe)))
+        if (ubase_check(upipe_set_output(ut, out_of(0))))
             cur_out = &sinks[0].upipe;
         else
             has_no_output = true;
         for (int i = 0; i < plan->nops && checking(); i++) {
             cur_op = i;
             do_op(&plan->ops[i]);
+            if (sweep_k && sim_alloc_failed())
+                provider_failed = true;         /* (what failed may have been the answer to a request) */
             req_invariant(op_name(plan->ops[i].code));
         }
         if (ut != NULL && checking())
@@ -1835,6 +1867,7 @@ static void gen(const char *pr, struct sim_rng *r, struct sim_plan *p)
     p->cfg[CFG_FAULTS] = sim_rng_chance(r, 1, 3);
     p->cfg[CFG_PROVIDE] = sim_rng_chance(r, 9, 10) ? 31 : sim_rng_below(r, 32);
     p->cfg[CFG_ALLOCDEF] = sim_rng_below(r, 128);
+    p->cfg[CFG_RELAY] = sim_rng_chance(r, 1, 3);
     int n = 3 + (int)sim_rng_below(r, 24);
     if ((p->cfg[CFG_PROP] == 1 || p->cfg[CFG_PROP] == 4) && !p->cfg[CFG_TWIN] && sim_rng_chance(r, 1, 8)) {
         /* single-fault sweep over a short fault-free history */
